@@ -277,57 +277,67 @@ End Cover.
 (* ------------------------------------------------------------------ *)
 (* termination                                                          *)
 (* ------------------------------------------------------------------ *)
-Definition mu (ts : list task) : nat := list_sum (map (fun tk => length (rem_entries tk)) ts).
+Ltac elia := unfold entry in *; lia.
+Fixpoint nsum (l : list nat) : nat := match l with [] => 0 | x :: r => x + nsum r end.
+Lemma nsum_app a b : nsum (a ++ b) = nsum a + nsum b.
+Proof. induction a as [|x a IH]; cbn [nsum app]; lia. Qed.
+
+Definition mu (ts : list task) : nat := nsum (map (fun tk => length (rem_entries tk)) ts).
 
 Lemma mu_app a b : mu (a ++ b) = mu a + mu b.
-Proof. unfold mu. now rewrite map_app, list_sum_app. Qed.
+Proof. unfold mu. now rewrite map_app, nsum_app. Qed.
 
-Lemma mu_child a cs : mu (child_tasks a cs) = list_sum (map (fun c => length (contents c)) cs).
+Lemma mu_nil : mu [] = 0.
+Proof. reflexivity. Qed.
+Lemma mu_cons tk l : mu (tk :: l) = length (rem_entries tk) + mu l.
+Proof. reflexivity. Qed.
+
+Lemma mu_child a cs : mu (child_tasks a cs) = nsum (map (fun c => length (contents c)) cs).
 Proof.
-  induction cs as [|c cs IH]; [reflexivity|]. unfold child_tasks in *. cbn [fold_right flat_map map list_sum].
-  rewrite mu_app, IH. destruct c; unfold mu, rem_entries; cbn [fold_right map list_sum tdone tsub skipn contents length]; lia.
+  induction cs as [|c cs IH]; [reflexivity|]. unfold child_tasks in *. cbn [flat_map map nsum].
+  rewrite mu_app, IH. destruct c; unfold mu, rem_entries; cbn [map nsum tdone tsub skipn contents length]; elia.
 Qed.
 
 Lemma mu_split tk : mu (split tk) <= length (rem_entries tk).
 Proof.
-  unfold split. destruct (tsub tk) as [|k v|lbl lf l r] eqn:Et; try (unfold mu; cbn; lia).
+  unfold split. destruct (tsub tk) as [|k v|lbl lf l r] eqn:Et; try (unfold mu; cbn; elia).
   assert (length (rem_entries tk) =
           length (lf_contents lf) + length (contents l) + length (contents r) - tdone tk) as Er.
-  { unfold rem_entries. rewrite Et, skipn_length. cbn [contents]. rewrite !app_length. lia. }
+  { unfold rem_entries. rewrite Et, skipn_length. cbn [contents]. rewrite !app_length. elia. }
   destruct (Nat.leb_spec (tdone tk) (length (lf_contents lf))).
-  { destruct l, r; try (rewrite mu_child; cbn [fold_right map list_sum]; cbn [contents length] in *; lia).
-    unfold mu; cbn; lia. }
+  { destruct l, r; try (rewrite mu_child; cbn [map nsum]; cbn [contents length] in *; elia).
+    unfold mu; cbn; elia. }
   destruct (Nat.ltb_spec (tdone tk) (length (lf_contents lf) + length (contents l))).
-  { rewrite mu_app, mu_child. unfold mu, rem_entries. cbn [fold_right map list_sum tdone tsub]. rewrite skipn_length. lia. }
+  { rewrite Er, mu_app, mu_child. unfold mu, rem_entries. cbn [map nsum tdone tsub]. rewrite skipn_length. elia. }
   destruct (Nat.eqb_spec (tdone tk) (length (lf_contents lf) + length (contents l))).
-  { unfold mu; cbn; lia. }
-  unfold mu, rem_entries. cbn [fold_right map list_sum tdone tsub]. rewrite skipn_length. lia.
+  { unfold mu; cbn; elia. }
+  rewrite Er. unfold mu, rem_entries. cbn [map nsum tdone tsub]. rewrite skipn_length. elia.
 Qed.
 
 Lemma mu_split_pass threads tasks : forall acc,
   mu (fst (split_pass threads acc tasks)) <= mu acc + mu tasks.
 Proof.
   induction tasks as [|tk rest IH]; intros acc; cbn [split_pass].
-  - cbn. lia.
-  - destruct (threads <=? _); cbn [fst]; [rewrite mu_app; lia|].
+  - cbn [fst]. rewrite mu_nil. elia.
+  - destruct (threads <=? _); cbn [fst]; [rewrite mu_app; elia|].
     specialize (IH (acc ++ split tk)). rewrite mu_app in IH. pose proof (mu_split tk).
-    unfold mu at 3. cbn [fold_right map list_sum]. fold (mu rest). lia.
+    rewrite mu_cons. elia.
 Qed.
 
 Lemma mu_split_tasks threads n : forall ts, mu (split_tasks threads n ts) <= mu ts.
 Proof.
-  induction n as [|n IH]; intros ts; cbn [split_tasks]; [lia|].
+  induction n as [|n IH]; intros ts; cbn [split_tasks]; [elia|].
   pose proof (mu_split_pass threads ts []) as P.
-  destruct (split_pass threads [] ts) as [ts2 stop]. cbn [fst] in P. unfold mu at 2 in P. cbn in P.
-  destruct stop; [lia|]. specialize (IH ts2). lia.
+  destruct (split_pass threads [] ts) as [ts2 stop]. cbn [fst] in P. rewrite mu_nil in P.
+  destruct stop; [elia|]. specialize (IH ts2). elia.
 Qed.
 
 Lemma mu_filter l : mu (filter unfinished l) = mu l.
 Proof.
   induction l as [|tk l IH]; [reflexivity|]. cbn [filter].
   destruct (unfinished tk) eqn:E.
-  - unfold mu in *. cbn [fold_right map list_sum]. lia.
-  - unfold mu in *. cbn [fold_right map list_sum]. rewrite IH.
+  - rewrite !mu_cons. elia.
+  - rewrite mu_cons, IH.
     destruct (rem_entries tk) eqn:Er; [reflexivity|].
     assert (unfinished tk = true) by (apply unfinished_rem; congruence). congruence.
 Qed.
@@ -338,21 +348,20 @@ Proof. rewrite (rem_split size tk) at 1. now rewrite app_length. Qed.
 
 Lemma mu_advance_le size l : mu (map (advance size) l) <= mu l.
 Proof.
-  induction l as [|tk l IH]; [reflexivity|]. unfold mu in *. cbn [fold_right map list_sum].
-  pose proof (rem_advance_len size tk). lia.
+  induction l as [|tk l IH]; [reflexivity|]. cbn [map]. rewrite !mu_cons.
+  pose proof (rem_advance_len size tk). elia.
 Qed.
 
 Lemma mu_advance_lt size l :
   (exists tk, In tk l /\ rem_entries tk <> []) -> mu (map (advance size) l) < mu l.
 Proof.
   induction l as [|tk l IH]; intros (tk0 & Hin & Hne); [destruct Hin|].
-  unfold mu in *. cbn [fold_right map list_sum]. pose proof (rem_advance_len size tk) as L.
-  pose proof (mu_advance_le size l) as Le. unfold mu in Le.
+  cbn [map]. rewrite !mu_cons. pose proof (rem_advance_len size tk) as L.
+  pose proof (mu_advance_le size l) as Le.
   destruct Hin as [->|Hin].
   - pose proof (task_run_nonempty size tk0 Hne) as Hn.
-    destruct (task_run size tk0); [congruence|]. cbn [length] in L. lia.
-  - assert (list_sum (map (fun tk1 => length (rem_entries tk1)) (map (advance size) l)) <
-            list_sum (map (fun tk1 => length (rem_entries tk1)) l)) by (apply IH; eauto). lia.
+    destruct (task_run size tk0); [congruence|]. cbn [length] in L. elia.
+  - assert (mu (map (advance size) l) < mu l) by (apply IH; eauto). elia.
 Qed.
 
 Lemma par_rounds_nil fuel size threads : par_rounds fuel size threads [] = ([], []).
@@ -361,7 +370,7 @@ Proof. destruct fuel; reflexivity. Qed.
 Theorem par_rounds_terminates size threads fuel : forall ts,
   mu ts < fuel -> snd (par_rounds fuel size threads ts) = [].
 Proof.
-  induction fuel as [|fuel IH]; intros ts Hm; [lia|]. cbn [par_rounds].
+  induction fuel as [|fuel IH]; intros ts Hm; [elia|]. cbn [par_rounds].
   destruct ts as [|tk0 rest] eqn:Ets; [reflexivity|]. rewrite <- Ets in *. clear Ets tk0 rest.
   pose proof (mu_split_tasks threads SPLIT_ITERS ts) as M2.
   set (ts2 := split_tasks threads SPLIT_ITERS ts) in *.
@@ -375,15 +384,15 @@ Proof.
       unfold ts' in Hin. apply filter_In in Hin as [Hin Hu].
       apply in_map_iff in Hin as (tk & <- & Hin). exists tk. split; [assumption|].
       apply unfinished_rem in Hu. intros E. apply Hu.
-      pose proof (rem_advance_len size tk) as L. rewrite E in L. cbn in L.
-      destruct (rem_entries (advance size tk)); [reflexivity|cbn in L; lia]. }
-    specialize (IH ts'). rewrite Et' in IH, Hlt. rewrite Epr in IH. cbn [snd] in IH. apply IH. lia.
+      pose proof (rem_advance_len size tk) as L. rewrite E in L. cbn [length] in L.
+      destruct (rem_entries (advance size tk)); [reflexivity|cbn [length] in L; elia]. }
+    specialize (IH ts'). rewrite Et' in IH, Hlt. rewrite Epr in IH. cbn [snd] in IH. apply IH. elia.
 Qed.
 
 Theorem par_terminates size threads t : snd (par_runs size threads t) = [].
 Proof.
   unfold par_runs. destruct t as [|k v|lbl lf l r]; [reflexivity| |];
-    apply par_rounds_terminates; unfold mu, rem_entries; cbn [fold_right map list_sum tdone tsub skipn]; lia.
+    apply par_rounds_terminates; unfold mu, rem_entries; cbn [map nsum tdone tsub skipn]; elia.
 Qed.
 
 (* every pair of the tree is carried by some chunk of the parallel chunker *)
